@@ -28,6 +28,7 @@ fn streams(t: Tier) -> Vec<StreamDef> {
         st("flagwords", t.n(65536, 65536, 40, 65536), true),
         st("small_exhaustive", t.n(65793, 65793, 0, 65793), true),
         st("per_type", t.n(38 * 41 * 8, 38 * 41 * 64, 60, 38 * 41 * 8), true),
+        st("big", t.n(320, 8000, 0, 320), false),
     ]
 }
 
@@ -370,6 +371,18 @@ fn run(ctx: &mut Ctx) {
             let b = super::c01::small_input(ctx.idx);
             judge(ctx, &b, "small");
         }
+        "big" => match wire::big_input(&mut ctx.rng) {
+            (wire::Big::Msg(b), tag) => {
+                judge(ctx, &b, tag);
+                if b.len() > 12 && b[0] & 1 == 1 {
+                    judge_avps(ctx, &b[12..]);
+                }
+            }
+            (wire::Big::Avps(b), tag) => {
+                ctx.rep.bucket(&format!("gen.{}", tag));
+                judge_avps(ctx, &b);
+            }
+        },
         "per_type" => {
             // the public per-type payload decoders against the reference's payload formats
             let k = (ctx.idx % 38) as usize;
